@@ -48,6 +48,7 @@ type sysOpts struct {
 	EncKey        []byte
 	TableSize     int64
 	BaseLevelSize int64
+	MemSize       int64
 }
 
 type hist struct {
@@ -91,7 +92,7 @@ func openSysDB(dir string, o sysOpts) (*badger.DB, error) {
 		opt = badger.DefaultOptions("").WithInMemory(true)
 	}
 	opt = opt.WithLoggingLevel(badger.ERROR).WithNumCompactors(0).WithNumLevelZeroTables(1000).
-		WithNumLevelZeroTablesStall(2000).WithMemTableSize(1 << 20).WithValueLogFileSize(1 << 20).
+		WithNumLevelZeroTablesStall(2000).WithMemTableSize(memSize(o)).WithValueLogFileSize(1 << 20).
 		WithNumVersionsToKeep(o.NKeep).WithDetectConflicts(o.Detect).WithMaxLevels(o.MaxLevels).
 		WithBaseTableSize(o.TableSize).WithBaseLevelSize(o.BaseLevelSize).WithLevelSizeMultiplier(2).
 		WithNumMemtables(8).WithBlockSize(64).WithMetricsEnabled(false).WithCompactL0OnClose(false)
@@ -107,6 +108,13 @@ func openSysDB(dir string, o sysOpts) (*badger.DB, error) {
 	return badger.Open(opt)
 }
 
+func memSize(o sysOpts) int64 {
+	if o.MemSize > 0 {
+		return o.MemSize
+	}
+	return 1 << 20
+}
+
 var histSeq int
 
 func newHist(c *Ctx, o sysOpts) (*hist, error) {
@@ -115,6 +123,7 @@ func newHist(c *Ctx, o sysOpts) (*hist, error) {
 	if os.Getenv("VERIF_SCRATCH_DIR") == "" {
 		dir = filepath.Join(os.TempDir(), fmt.Sprintf("verif_h%d_%d", os.Getpid(), histSeq))
 	}
+	os.RemoveAll(dir)
 	os.MkdirAll(dir, 0o755)
 	db, err := openSysDB(dir, o)
 	if err != nil {
